@@ -20,5 +20,13 @@ meta = {
  'failing_obligations': obl[:6],
  'replay_reproduced': any(l.startswith('VIOLATION') and 'no-failing-input-found' not in l for l in out.splitlines()),
 }
+try:
+    old = json.load(open(f'{d}/meta.json'))
+    if old.get('note'):
+        meta['note'] = old['note']
+except Exception:
+    pass
+if os.path.exists(f'{d}/patch.orig.diff') and 'note' not in meta:
+    meta['note'] = 'patch.diff rebased (context lines only) onto the tree with later fix: commits; the agent\'s original is patch.orig.diff'
 json.dump(meta, open(f'{d}/meta.json', 'w'), indent=1)
 print(json.dumps({k: meta[k] for k in ('property', 'caught', 'failing_obligations')}, indent=1))
